@@ -109,19 +109,19 @@ pub fn child(sub: &str) -> i32 {
     }
     quiet_panics();
     let server = Server::new(router());
-    let l = server.listen("127.0.0.1:0").unwrap();
+    let l = server.listen(crate::util::lo0().as_str()).unwrap();
     let p1 = l.local_addr().unwrap().port();
     std::thread::spawn(move || {
         let _ = server.serve(l);
     });
     let rt = tokio::runtime::Builder::new_multi_thread().worker_threads(2).enable_all().build().unwrap();
     let (p2, p3) = rt.block_on(async {
-        let l2 = AsyncServer::listen("127.0.0.1:0").await.unwrap();
+        let l2 = AsyncServer::listen(crate::util::lo0().as_str()).await.unwrap();
         let p2 = l2.local_addr().unwrap().port();
         tokio::spawn(async move {
             let _ = AsyncServer::new(router()).serve(l2).await;
         });
-        let l3 = WebSocketServer::listen("127.0.0.1:0").await.unwrap();
+        let l3 = WebSocketServer::listen(crate::util::lo0().as_str()).await.unwrap();
         let p3 = l3.local_addr().unwrap().port();
         tokio::spawn(async move {
             let _ = WebSocketServer::new(router()).on_error(|_| {}).serve_listener(l3, "/repe").await;
@@ -138,12 +138,12 @@ pub fn child(sub: &str) -> i32 {
 fn valid_call(target: Target, port: u16) -> Result<(), String> {
     match target {
         Target::Server | Target::AsyncServer => {
-            let c = Client::connect(("127.0.0.1", port)).map_err(|e| format!("connect: {e}"))?;
+            let c = Client::connect((crate::util::lo(), port)).map_err(|e| format!("connect: {e}"))?;
             let v = c.call_json_with_timeout("/ok", &json!(5), Duration::from_secs(10)).map_err(|e| format!("call: {e}"))?;
             if v == json!({"echo": 5}) { Ok(()) } else { Err(format!("wrong answer {v}")) }
         }
         _ => block_on(async {
-            let c = WebSocketClient::connect(&format!("ws://127.0.0.1:{port}/repe")).await.map_err(|e| format!("connect: {e}"))?;
+            let c = WebSocketClient::connect(&format!("ws://{}:{port}/repe", crate::util::lo())).await.map_err(|e| format!("connect: {e}"))?;
             let v = c.call_json_with_timeout("/ok", &json!(5), Duration::from_secs(10)).await.map_err(|e| format!("call: {e}"))?;
             if v == json!({"echo": 5}) { Ok(()) } else { Err(format!("wrong answer {v}")) }
         }),
@@ -190,7 +190,7 @@ fn run_servers(ctx: &Ctx, rep: &Report) {
             let bytes = header_bytes(&h, 500 + i as u64);
             match target {
                 Target::Server | Target::AsyncServer => {
-                    if let Ok(mut s) = std::net::TcpStream::connect(("127.0.0.1", port)) {
+                    if let Ok(mut s) = std::net::TcpStream::connect((crate::util::lo(), port)) {
                         let _ = s.write_all(&bytes);
                         let _ = s.set_read_timeout(Some(Duration::from_millis(200)));
                         let mut buf = [0u8; 64];
@@ -199,7 +199,7 @@ fn run_servers(ctx: &Ctx, rep: &Report) {
                 }
                 _ => {
                     let _ = block_on(async {
-                        if let Ok((ws, _)) = repe::tokio_tungstenite::connect_async(format!("ws://127.0.0.1:{port}/repe")).await {
+                        if let Ok((ws, _)) = repe::tokio_tungstenite::connect_async(format!("ws://{}:{port}/repe", crate::util::lo())).await {
                             let mut io = WsIo::new(ws);
                             let _ = io.send(&bytes).await;
                             let _ = tokio::time::timeout(Duration::from_millis(200), io.recv_raw()).await;
